@@ -18,6 +18,11 @@ Theorem C14_src_index_is_model : forall F m c, chars_ok (StrGlyphMapping_data m)
   src_StrGlyphMapping_index F m c = Some (str_index (StrGlyphMapping_data m) (StrGlyphMapping_replacement_index m) c).
 Proof. exact src_index_eq. Qed.
 
+(* round 5: the constructor (mapping.rs:78-83) *)
+Theorem C14_src_str_glyph_mapping_new : forall data r,
+  StrGlyphMapping_data (src_StrGlyphMapping_new data r) = data /\ StrGlyphMapping_replacement_index (src_StrGlyphMapping_new data r) = r.
+Proof. intros. split; reflexivity. Qed.
+
 Example C14_src_mapping_nonvacuous :
   src_StrGlyphMapping_index 10 (src_StrGlyphMapping_new [0; 97; 102; 0; 49; 52] 31) 50 = Some 7 /\
   src_StrGlyphMapping_index 10 (src_StrGlyphMapping_new [0; 97; 102; 0; 49; 52] 31) 122 = Some 31 /\
